@@ -68,6 +68,7 @@ type Frame struct {
 	curR     string
 	siteCnt  map[string]int
 	siteOrd  map[interface{}]int
+	pseudoOrd map[interface{}]int
 	hints    []string
 	aliases  map[string]Val
 	freeVars []Val
